@@ -43,10 +43,10 @@ CHECKS.update({
 })
 
 EXTRA={
-"C01":" Target kinds include a behaviour written directly against gen.ProcessBehavior; Start of a meta-process may return or panic while a callback runs.",
+"C01":" Target kinds include a behaviour written directly against gen.ProcessBehavior; Start of a meta-process may return or panic while a callback runs; Node.Kill may be aimed at a target that is still inside Init.",
 "C03":" Receivers are actors, supervisors and pools (own traffic); plain Send runs next to SendWithPriority, and senders interleave High/Max-priority sends to a missing process (which fail) with their streams: the priority of a failed send must not leak into the next one.",
 "C12":" Calls may be answered with SendResponseError and an error of the receiver's own.",
-"C19":" With unbounded worker mailboxes the pool may never count an item as unhandled.",
+"C19":" With unbounded worker mailboxes the pool may never count an item as unhandled; one client may live on a second node; a worker may answer a call and terminate normally.",
 "C02":" A second receiver may be in the middle of SpawnRegister (Init with scheduling points) while senders already address its name; a panic raised by repository code counts as a send that neither succeeded nor failed.",
 "C04":" Scripted scenarios: name reuse by a successor, and relations taken on a name whose process is still inside its Init (which then fails or succeeds).",
 "C05":" Observers include top-level trapping actors watching the registered name; every observer is notified exactly once.",
@@ -55,11 +55,11 @@ EXTRA={
 "C09":" Terminations that need no restart and DisableChild/EnableChild are mixed into the schedule and must not use up the allowance; Intensity / Period left 0 take the documented defaults.",
 "C10":" With Node.Stop as the final action unrelated processes may spawn further processes while the stop is running.",
 "C13":" SendWithPriority takes part in the streams; 30 simulated seconds after a link cut fresh processes spread over all pooled links write again and nothing of that may be lost.",
-"C14":" Reverse relations (a local target watched from the remote node and by a local bystander), a watcher that subscribes again inside every node-down handler, important sends and late SendResponse / SendResponseError with identifiers of the old incarnation, the observers' node stopping its own network, an atom mapping on the connection for the target's name; nodes start in different simulated seconds.",
-"C15":" Plain and TLS acceptors (the adversary speaks TLS, replays at once and frame by frame, also a departed node's plain handshake against the TLS acceptor); requests that name a process of another peer as the parent; Acceptor.SetCookie / Network.SetCookie at run time; an adversary that trickles a valid prefix byte by byte.",
+"C14":" Reverse relations (a local target watched from the remote node and by a local bystander), a watcher that subscribes again inside every node-down handler, important sends and late SendResponse / SendResponseError with identifiers of the old incarnation, the observers' node stopping its own network, an atom mapping on the connection for the target's name, a half-open connection (the peer loses power and its new incarnation dials in unnoticed); nodes start in different simulated seconds.",
+"C15":" Plain and TLS acceptors (the adversary speaks TLS, replays at once and frame by frame, also a departed node's plain handshake against the TLS acceptor); requests that name a process of another peer as the parent; Acceptor.SetCookie / Network.SetCookie at run time; an adversary that trickles a valid prefix byte by byte; the two environment-exposure switches are drawn independently.",
 "C16":" Also inflated counts in frames and in well-formed pre-authentication handshake values (nested arrays), frames cut short with a matching length field, and the offending connection must be closed or working again when the stream stayed in step; authenticated hostile peers on the dialling and on the accepting side (absurd pool sizes, cache holes, own name).",
-"C17":" One case in four starts the application from a second node over the simulated network; dependencies may be loaded or already running; members may trap exit signals.",
-"C18":" Consumers on up to two further nodes, one of them with a message size limit that some publications exceed; a subscription that succeeded is notified exactly once when the event ends; half of the remote cases use pools of links with different latency.",
+"C17":" One case in four starts the application from a second node over the simulated network; dependencies may be loaded or already running; members may trap exit signals; ApplicationUnload races the other actions (it may only succeed when no member is registered).",
+"C18":" Consumers on up to two further nodes, one of them with a message size limit that some publications exceed; a subscription that succeeded is notified exactly once when the event ends; half of the remote cases use pools of links with different latency; consumers may first try to subscribe before the event is registered.",
 }
 for k,v in EXTRA.items():
     lvl,txt=CHECKS[k]
